@@ -1,6 +1,6 @@
 import TeaalVerif.FT.Ops
 /-!
-# C02 — shape-based partitioning (tensor-level algebra; partial)
+# C02 — shape-based partitioning (tensor-level algebra; the composition with the loop nest is in Props/C02Nest, C02Model)
 
 Proved here, for **every** tensor, step, depth and extent:
 
@@ -15,9 +15,8 @@ Proved here, for **every** tensor, step, depth and extent:
 * `nway_cover`       — the step `(N - 1) / n + 1` the compiler computes for `nway_shape(n)` gives at
                        most `n` partitions covering `[0, N)`.
 
-Not proved: the composition with the loop-nest theorem of C01 for nests over the expanded ranks in an
-arbitrary level order (stated as `C02` in DESIGN.md §5); the check decides that part by executing the
-real partitioned program against the unpartitioned one and the dense oracle on sampled inputs.
+The composition with the loop-nest theorem of C01 for nests over the expanded ranks in an arbitrary level
+order is `C02.partitioned_nest` / `C02.model_partitioned` (Props/C02Nest.lean, Props/C02Model.lean).
 -/
 namespace C02
 open FT
